@@ -118,7 +118,7 @@ class Check:
             else: self.inconclusive.append('%s: ENCODING-MISMATCH on a sampled path: %s' % (label, detail))
             if len(self.samples) < 6: self.samples.append({'harness': label, 'input': h.concretise(s['assignment']), 'rsym_result': s['result']})
         rep = {k: r[k] for k in ('label', 'harness', 'paths', 'ok', 'violation_count', 'inconclusive_n', 'nconds', 'maxdepth', 'complete', 'wall_s', 'witness', 'missing_witnesses', 'describe', 'char_splits')}
-        rep['solver'] = r['stats']; rep['functions'] = r['called']
+        rep['solver'] = r['stats']; rep['functions'] = r['called']; rep['cvc5_second_opinion'] = r.get('cvc5', {})
         self.harness_reports.append(rep)
         return r
     def validate_sample(self, h, s):
@@ -214,6 +214,7 @@ class Check:
             'bounds': bounds or {}, 'outside_bounds': outside or [],
             'queries_discharged': sum(r['solver'].get('queries', 0) for r in reps), 'solver_seconds': round(sum(r['solver'].get('solver_s', 0) for r in reps), 2),
             'assertion_formulas_decided': sum(r['nconds'] for r in reps),
+            'cvc5_second_opinion': {k: sum(r.get('cvc5_second_opinion', {}).get(k, 0) for r in reps) for k in ('agree', 'disagree', 'unsupported')},
             'harnesses': reps, 'conformance_gate': getattr(self, 'gate_report', None),
             'counterexamples_replayed_natively': self.replayed, 'sampled_paths_validated_natively': self.validated,
             'inconclusive': self.inconclusive, 'notes': self.notes,
